@@ -41,6 +41,16 @@ CHECKS = {
         technique="invariant at a quiescent hook: digest of every finished result recomputed after every later execute() in random consumer sequences over all built-in commands (both library sets)",
         text="After every consumer execution the shape, dtype, mask and unmasked value bits of every previously finished result (stand-in producers and real command results) are re-digested and compared with the digest taken when it was produced. Consumers include single-input forms of n-ary operators, PrintVars, and the CSV and NetCDF writers.",
         note="Trusted: numpy, sha1. Values under the mask are excluded. Sequences of <=10 consumers over <=6 base arrays."),
+    "C10": dict(
+        level="exploration", design="5/C10",
+        technique="runtime comparison of Parser().parse output with the generating AST over random renderings (layout metamorphic), plus single-edit corruption monitor demanding SyntaxError; failures classified by isolated leaf value class",
+        text="Random abstract programs are rendered in many concrete layouts (spacing, tabs, line breaks, comment lines, trailing comments, trailing commas, quote style, LF/CRLF) and the ProgramNode returned by the real parser is compared type-exactly with the AST (floats bit-exact, tuples as maps). Unambiguously malformed single-edit corruptions must raise SyntaxError. One known finding: unquoted strings ending in a numeric token are rejected.",
+        note="Trusted: the harness renderer and its statement of 'well-formed' (documented syntax + what tests/test_parser.py fixes). Don't-care: duplicate tuple keys, comments/newlines inside unquoted strings, bare True/False, backslash escapes other than \\\\ \\\" \\' \\n \\t."),
+    "C11": dict(
+        level="exploration", design="5/C11",
+        technique="runtime node-by-node line monitor against the renderer's line map under LF/CRLF/CR, multi-line strings and Parser-reuse histories; fault injection at known lines with error.lineno and CLI '-->' marker monitors",
+        text="Every CommandNode/ArgumentNode/ExpressionNode/list element line is compared with the line recorded by the renderer, including after histories of earlier parses on the same Parser object; single faults are injected at known positions of valid EEMS models and the lineno carried by the resulting error (and the line the CLI marks) must be the offending command's or argument's line.",
+        note="The head 'Result = Command(' is kept on one line. For list arguments the argument-name line, the list's first line and the offending element's line are all accepted. Errors of an unexpected class are left to C12/C13."),
 }
 
 PENDING = {}
